@@ -245,20 +245,16 @@ pub fn regexp_test(
     this: JsValue,
     args: &[JsValue],
 ) -> Result<Guarded, JsError> {
-    let JsValue::Object(ref obj) = this else {
-        return Err(JsError::type_error("this is not a RegExp"));
-    };
-
-    let re = get_compiled_regexp(interp, obj)?;
-
-    // Use ToString abstract operation (calls object's toString if needed)
-    let input_arg = args.first().cloned().unwrap_or(JsValue::Undefined);
-    let input = interp.coerce_to_string(&input_arg)?.to_string();
-
-    let is_match = re
-        .is_match(&input)
-        .map_err(|e| JsError::syntax_error(e, 0, 0))?;
-    Ok(Guarded::unguarded(JsValue::Boolean(is_match)))
+    // RegExp.prototype.test is "exec found a match": a global or sticky
+    // expression starts at lastIndex and advances it
+    let Guarded {
+        value,
+        guard: _guard,
+    } = regexp_exec(interp, this, args)?;
+    Ok(Guarded::unguarded(JsValue::Boolean(!matches!(
+        value,
+        JsValue::Null
+    ))))
 }
 
 pub fn regexp_exec(
@@ -310,9 +306,12 @@ pub fn regexp_exec(
     }
 
     // Use the provider's find method which handles start position
+    let start = super::string::byte_offset(&input, last_index);
     let match_result = re
-        .find(&input, super::string::byte_offset(&input, last_index))
-        .map_err(|e| JsError::syntax_error(e, 0, 0))?;
+        .find(&input, start)
+        .map_err(|e| JsError::syntax_error(e, 0, 0))?
+        // A sticky expression matches at lastIndex or not at all
+        .filter(|m| !is_sticky || m.start == start);
 
     match match_result {
         Some(regex_match) => {
